@@ -1,0 +1,13 @@
+//go:build verif
+
+package peerstore
+
+// Entry points for the /verif property checks (build tag "verif" only). The
+// cleanup passes are otherwise reachable only through wall-clock tickers
+// (5 minutes / 1 hour), so a check that owns the clock cannot trigger them.
+
+// VerifCleanupExpiredPeerEntries runs one pass of the expired-entry cleanup.
+func (s *LocalStore) VerifCleanupExpiredPeerEntries() { s.cleanupExpiredPeerEntries() }
+
+// VerifCleanupExpiredPeerGroups runs one pass of the expired-group cleanup.
+func (s *LocalStore) VerifCleanupExpiredPeerGroups() { s.cleanupExpiredPeerGroups() }
